@@ -52,6 +52,8 @@ def gen_response(rng):
     if spec["framing"] == "chunked":
         spec["chunks"] = [rng.choice([1, 2, 3, 7, 10, 16, 100, 255, 1000, 5000, 100000]) for _ in range(rng.choice([1, 1, 2, 3]))]
         spec["chunk_ext"] = rng.random() < 0.3
+        if spec["chunk_ext"] and rng.random() < 0.35:
+            spec["chunk_ext"] = "long"
         if rng.random() < 0.3:
             spec["chunk_hex_upper"] = True  # chunk sizes written in upper-case hex
         avg = sum(spec["chunks"]) / len(spec["chunks"])
